@@ -155,6 +155,34 @@ def oracle(case, line):
                     bad.append(("dht-own-id-contacted", "our own node id from a compact nodes string became a search contact (query sent to its address)"))
                 else:
                     bad.append(("dht-invented-contact", "a find_node query went to an address that is in no record of the reply"))
+    elif kind == "DS":
+        own = toks[1]
+        kof = {}
+        for t_ in toks[3:]:
+            if t_[0] in "IRE":
+                kof.setdefault(t_[1:41], int(t_.split(":")[1]))
+        known = {kof[t_[1:41]] for t_ in toks[3:] if t_[0] == "I"}
+        segs = line.split(" ; ")
+        evs = [i_ for i_, t_ in enumerate(toks) if t_[0] == "E" and i_ >= 3]
+        if len(segs) != len(evs) + 1:
+            return [("dht-events", "number of reported steps differs from the number of replies")]
+        for n_, seg in enumerate(segs):
+            if n_ > 0:      # what the replies processed so far have named
+                j = evs[n_ - 1] + 1
+                while j < len(toks) and toks[j][0] != "E":
+                    if toks[j][0] == "R" and toks[j][1:41] != own:
+                        known.add(int(toks[j].split(":")[1]))
+                    j += 1
+            qs = [] if seg == "-" else seg.split(",")
+            if any("!not-our-id" in q or not q.startswith("find_node@") for q in qs):
+                bad.append(("dht-odd-query", "during a find_node search the server sent something that is not its own find_node query: " + seg[:100]))
+                continue
+            for q in qs:
+                k_ = int(q.split("@")[1])
+                if k_ == kof.get(own):
+                    bad.append(("dht-own-id-contacted", "our own node id from a compact nodes string became a search contact (query sent to its address)"))
+                elif k_ not in known:
+                    bad.append(("dht-invented-contact", "a find_node query went to an address that no reply and no routing-table entry named"))
     elif kind == "DV":
         d = bytes.fromhex(toks[1]) if toks[1] != "-" else b""
         w = G.ref_values(d)
@@ -332,7 +360,7 @@ def nontrivial(case, line):
         return "newpeers:" in line or "success:" in line
     if k == "DH":
         return "Q" in line or "e " in line
-    if k == "DF":
+    if k in ("DF", "DS"):
         return "@" in line
     if k == "DV":
         return line.startswith("OK ") and "values=~" not in line
@@ -386,7 +414,7 @@ def run(rep, tier, seed, replay):
     mo = ltv.run_sharded(model, cases)
     # DH / DV / PI cases need the fully initialised library (DhtRouter + DhtServer, PeerInfo): second binary
     impl_full = ltv.build_harness("c14dht", ["c14_dht.cc"])
-    full = ("DH", "DV", "PI", "DF")
+    full = ("DH", "DV", "PI", "DF", "DS")
     io = [None] * len(cases)
     for binary, idx in ((impl, [i for i, c in enumerate(cases) if c.split(" ", 1)[0] not in full]),
                         (impl_full, [i for i, c in enumerate(cases) if c.split(" ", 1)[0] in full])):
